@@ -89,6 +89,26 @@ theorem conn_map (l1 l2 : Walk.Link) (f : Nat → Nat) (h : ∀ z z', Walk.Rel l
   | refl => exact Walk.Conn.refl _
   | step _ r ih => exact Walk.Conn.step ih (h _ _ r)
 
+theorem linkedFrom_map (l1 l2 : Walk.Link) (f : Nat × Dir → Nat × Dir) (hf2 : ∀ p, (f p).2 = p.2)
+    (h : ∀ a b, l1 a.1 a.2 = some b → l2 (f a).1 (f a).2 = some (f b)) :
+    ∀ (cs : List (Nat × Dir)) (x : Nat × Dir), LinkedFrom l1 x.1 x.2 cs → LinkedFrom l2 (f x).1 (f x).2 (cs.map f) := by
+  intro cs
+  induction cs with
+  | nil => intro x _; trivial
+  | cons c t ih =>
+    intro x hx
+    obtain ⟨c1, c2⟩ := c
+    obtain ⟨h1, h2⟩ := hx
+    have := h x (c1, c2) h1
+    exact ⟨this, ih (c1, c2) h2⟩
+
+theorem ochain_map (l1 l2 : Walk.Link) (f : Nat × Dir → Nat × Dir) (hf2 : ∀ p, (f p).2 = p.2)
+    (h : ∀ a b, l1 a.1 a.2 = some b → l2 (f a).1 (f a).2 = some (f b)) (cs : List (Nat × Dir)) (hc : OChain l1 cs) :
+    OChain l2 (cs.map f) := by
+  cases cs with
+  | nil => trivial
+  | cons c t => exact linkedFrom_map l1 l2 f hf2 h t c hc
+
 /-- **concatenation of ported graphs** over the two halves of a well-formed table -/
 theorem pgraph_append {A B : Table D} {K : Nat} {st : Bool} {join0 : D → D → Bool} (wf : WF (A ++ B) K st)
     {nodesA nodesB : List (Node D)} {portA portB : Nat → Dir → Nat × Dir} {memA memB : Nat → List Nat} {lkA lkB : Walk.Link}
@@ -105,7 +125,7 @@ theorem pgraph_append {A B : Table D} {K : Nat} {st : Bool} {join0 : D → D →
     rw [List.getElem?_append_right (by omega)] at h
     exact ⟨h, (List.getElem?_eq_some_iff.mp h).1⟩
   have hlenAB : (nodesA ++ nodesB).length = nodesA.length + nodesB.length := List.length_append
-  refine ⟨?_, ?_, ?_, ?_, ?_, ?_, ?_, ?_, ?_, ?_, ?_, ?_, ?_⟩
+  refine ⟨?_, ?_, ?_, ?_, ?_, ?_, ?_, ?_, ?_, ?_, ?_, ?_, ?_, ?_⟩
   · intro i n h
     by_cases hi : i < nodesA.length
     · exact pa.len i n (hA i n h hi)
@@ -266,6 +286,35 @@ theorem pgraph_append {A B : Table D} {K : Nat} {st : Bool} {join0 : D → D →
       simp only [hz, if_false]
       rw [show A.length + z - A.length = z by omega, hr]; rfl
 
+  · intro i hi
+    rw [hlenAB] at hi
+    by_cases hiA : i < nodesA.length
+    · simp only [hiA, if_true]
+      obtain ⟨cs, h1, h2, h3, h4⟩ := pa.chain i hiA
+      refine ⟨cs, h1, ?_, h3, h4⟩
+      have := ochain_map lkA (fun x d => if x < A.length then lkA x d else (lkB (x - A.length) d).map (shiftP A.length)) (fun p => p) (fun _ => rfl) (fun a b hab => by
+        obtain ⟨ez, _, _, f⟩ := linkOf_inv A st join0 (pa.lkSub _ _ _ _ hab)
+        have hz : a.1 < A.length := (List.getElem?_eq_some_iff.mp f.hx).1
+        show (if a.1 < A.length then lkA a.1 a.2 else _) = some b
+        rw [if_pos hz]; exact hab) cs h2
+      simpa using this
+    · simp only [hiA, if_false]
+      obtain ⟨cs, h1, h2, h3, h4⟩ := pb.chain _ (by omega : i - nodesA.length < nodesB.length)
+      refine ⟨cs.map (shiftP A.length), ?_, ?_, ?_, ?_⟩
+      · rw [List.map_map, ← h1, List.map_map]; rfl
+      · exact ochain_map lkB (fun x d => if x < A.length then lkA x d else (lkB (x - A.length) d).map (shiftP A.length)) (shiftP A.length) (fun _ => rfl) (fun a b hab => by
+          have hz : ¬ (A.length + a.1 < A.length) := by omega
+          show (if A.length + a.1 < A.length then _ else (lkB (A.length + a.1 - A.length) a.2).map (shiftP A.length)) = some (shiftP A.length b)
+          rw [if_neg hz, show A.length + a.1 - A.length = a.1 by omega, hab]; rfl) cs h2
+      · rw [List.head?_map]
+        cases hh : cs.head? with
+        | none => rw [hh] at h3; cases h3
+        | some c =>
+          rw [hh] at h3
+          simp only [Option.map_some, Option.some.injEq] at h3 ⊢
+          rw [← h3]; rfl
+      · rw [List.getLast?_map, h4]; rfl
+
 /-- shard by shard, the nodes are ported into the shard's table -/
 def AllPorted (K : Nat) (st : Bool) (join0 : D → D → Bool) : List (Table D) → List (List (Node D)) → Prop
   | [], [] => True
@@ -274,7 +323,7 @@ def AllPorted (K : Nat) (st : Bool) (join0 : D → D → Bool) : List (Table D) 
 
 theorem pgraph_nil (K : Nat) (st : Bool) (join0 : D → D → Bool) :
     PGraph ([] : Table D) K st join0 [] (fun _ s => (0, s)) (fun _ => []) (fun _ _ => none) := by
-  refine ⟨?_, ?_, ?_, ?_, ?_, ?_, ?_, ?_, ?_, ?_, ?_, ?_, ?_⟩ <;> intros <;> simp_all
+  refine ⟨?_, ?_, ?_, ?_, ?_, ?_, ?_, ?_, ?_, ?_, ?_, ?_, ?_, ?_⟩ <;> intros <;> simp_all
 
 /-- **the shards' graphs, side by side, are ported into the concatenated table** -/
 theorem pgraph_flatten (K : Nat) (st : Bool) (join0 : D → D → Bool) :
